@@ -268,7 +268,7 @@ func main() {
 	var sampleIters []string
 	for _, dp := range dps {
 		for _, c := range cfgs {
-			if c.diagOnly && !thorough && dp.name != "annotated-same-base-name" {
+			if c.diagOnly && ((!thorough && dp.name != "annotated-same-base-name") || dp.name == "type-shapes") {
 				continue
 			}
 			key := dp.name + "|" + c.name
@@ -357,7 +357,7 @@ func main() {
 				}
 				st := sites[pc]
 				starts := []int{1}
-				if thorough && !c.diagOnly {
+				if thorough && !c.diagOnly && dp.name != "type-shapes" {
 					starts = nil
 					for v := 1; v < 8<<uint(st.maxB); v++ {
 						starts = append(starts, v)
